@@ -431,6 +431,7 @@ def correspondence(ctx):
         out.count(key="live-" + name, kind="live-" + name)
         if exp != m:
             out.fail("node-live", f"live {name} graph tables differ from the model run on the recorded history", name, observed=exp, expected=m)
+    correspondence_interleaved(ctx, out)
     correspondence_named(ctx, out)
     correspondence_registry(ctx, out)
     correspondence_registry_str(ctx, out)
@@ -438,6 +439,67 @@ def correspondence(ctx):
     correspondence_closure(ctx, out)
     correspondence_real_registry(ctx, out)
     return out
+
+
+def _interleaved_real_side(cases):
+    """histories on ONE set of live objects: after every link all tables are dumped and every path is queried (read, modify,
+    read again), so that anything the objects remember between two queries shows"""
+    from harness import c20_registry as R
+    from beyond.utils.node import Node
+    out = []
+    for names, h in cases:
+        def run():
+            dumps = []
+            if names is None:
+                n = 1 + max(max(e) for e in h)
+                nodes = [Node(str(i)) for i in range(n)]
+                for a, b in h:
+                    nodes[a] + nodes[b]
+                    dumps.append(real_dump(n, nodes))
+            else:
+                nodes = [Node(str(x)) for x in names]
+                for a, b in h:
+                    nodes[a] + nodes[b]
+                    dumps.append(R.dump_real_nodes(nodes) + " P " + ";".join(R.real_named_paths(nodes, names)))
+            return dumps
+        st, v = guarded(run, limit=6.0)
+        out.append(v if st == "ok" else [f"{st.upper()}:{v}"])
+    return out
+
+
+def correspondence_interleaved(ctx, out):
+    """queries interleaved with links on the same live Node objects (plain and shared names) vs the model run on every prefix"""
+    from harness import c20_registry as R
+    cases = []
+    for _ in range(ctx.n(60, 600)):
+        n = ctx.rng.randint(3, 7)
+        r = ctx.rng.random()
+        h = random_graph(ctx.rng, n) if r < 0.4 else (random_tree_history(ctx.rng, n) if r < 0.7 else [e for e in random_multigraph(ctx.rng, n)])
+        if not h:
+            continue
+        if ctx.rng.random() < 0.5:
+            cases.append((None, h, "interleaved-plain"))
+        else:
+            n = 1 + max(max(e) for e in h)
+            cases.append((random_names(ctx.rng, n), h, "interleaved-named"))
+    lines = []
+    for names, h, _ in cases:
+        for i in range(1, len(h) + 1):
+            lines.append(line(1 + max(max(e) for e in h), h[:i]) if names is None else R.named_line(names, h[:i]))
+    model = core.Driver().run(lines)
+    reals, why = R.forked(_interleaved_real_side, [(nm, h) for nm, h, _ in cases], time_limit=ctx.n(120, 600), mem_gb=4.0)
+    if reals is None:
+        out.fail("interleaved-real-side", "the real Node class could not be driven through the interleaved histories within the time / memory bound", {"n": len(cases)}, observed=why)
+        return
+    k = 0
+    for (names, h, kind), real in zip(cases, reals):
+        ms = model[k:k + len(h)]
+        k += len(h)
+        out.count(key=(kind, None if names is None else tuple(names), tuple(h)), nontrivial=len(h) >= 2, kind=kind)
+        if list(real) != list(ms):
+            i = next((j for j, (a, b) in enumerate(zip(real, ms)) if a != b), min(len(real), len(ms)))
+            out.fail("node-interleaved", "tables / paths read BETWEEN the links on the same live objects differ from the model run on the prefix",
+                     {"names": names, "hist": [list(e) for e in h], "after_links": i + 1}, observed=(real[i] if i < len(real) else None), expected=(ms[i] if i < len(ms) else None))
 
 
 def random_multigraph(rng, n):
